@@ -1,10 +1,10 @@
-\* quick: every listing of <= 3 rules named from {a, B2, b, C}, each rule with at most one criterion
-\* (account / address / ident glob), class present or absent, trust_username on or off; 8 clients
+\* quick: every listing of <= 3 rules named from {a, B2, b}; each rule has at most one criterion (account glob or
+\* ident glob), class present or absent, trust_username on or off; 6 clients
 CONSTANTS
   CBug <- Bug_none
-  Names <- N_4
+  Names <- N_3
   AcctP <- Acct_1
-  AddrP <- Addr_1
+  AddrP <- OnlyNone
   UserP <- User_1
   HostP <- OnlyNone
   OkP <- OnlyNone
@@ -14,7 +14,7 @@ CONSTANTS
   MaxCrit = 1
   Svcs <- S_ld
   CAcct <- CAcct_2
-  CAddr <- CAddr_2
+  CAddr <- CAddr_1
   CIdent <- CIdent_2
   CHost <- CHost_1
   CUser <- CUser_1
@@ -26,6 +26,7 @@ NEXT Next
 ACTION_CONSTRAINT Emit
 INVARIANT VecOrder
 INVARIANT OrderIndep
+INVARIANT VecIsConf
 INVARIANT Unique
 INVARIANT ImplClass
 INVARIANT ImplUline
